@@ -462,9 +462,52 @@ struct Engine {
         }
     }
 
+    // movr with a 16-bit source (register, memory word): the exact sum operand + 0x8000 is at most 0x17FFF, it cannot overflow 40 bits:
+    // V is 0 afterwards whatever it was before, the latched overflow keeps its value (the value and carry of these forms are a documented
+    // hardware quirk and are compared by C01 only)
+    void Movr16Case(u16 opcode, const DecodeInfo& d, u16 B16, int sata, int fl) {
+        std::string n = d.name;
+        VState s = base;
+        s.sata = (u16)sata;
+        s.fz = s.fm = s.fe = s.fn = s.fc0 = s.fv = s.fvl = s.flm = (u16)fl;
+        std::string form;
+        if (n == "movr" && ArgsAre(d, {"Register", "Ax"})) {
+            Reg r = kRegister[d.args[0]];
+            if (r == R_a0 || r == R_a1 || r == R_p || r == R_pc || r == R_st0 || r == R_st1 || r == R_st2)
+                return;
+            WriteReg16(s, r, B16);
+            form = std::string("movr ") + kRegNames[r] + ",Ax";
+        } else if (n == "movr" && ArgsAre(d, {"Rn", "StepZIDS", "Ax"})) {
+            s.r[d.args[0]] = 0x6480, s.m[d.args[0]] = 0, s.br[d.args[0]] = 0;
+            impl.api->poke_data(impl.m, 0x6480, B16);
+            form = "movr [Rn],Ax";
+        } else if (n == "movr_r6_to") {
+            s.r[6] = B16;
+            form = "movr r6,Ax";
+        } else
+            return;
+        u16 words[2] = {opcode, 0};
+        VState out;
+        RunResult rr;
+        impl.api->run(impl.m, &s, words, 2, 1, &out, &rr);
+        ++res.evaluations, ++res.transitions, ++res.traces_validated;
+        if (rr.outcome != OUT_OK)
+            return;
+        digests.insert(Mix(((u64)opcode << 20) ^ B16 ^ (out.fv << 17) ^ (fl << 18)));
+        if (out.fv != 0 || out.fvl != s.fvl)
+            res.AddViolation(Fmt("c03:%s:%s:flag-%s", d.name, form.c_str(), out.fv ? "overflow" : "latched-overflow"),
+                             Fmt("opcode %04X (%s): 16-bit operand %04X, sata=%d, flags before=%d: the exact sum operand + 0x8000 cannot overflow, yet v=%d vl=%d afterwards "
+                                 "(expected v=0 vl=%d)", opcode, form.c_str(), B16, sata, fl, out.fv, out.fvl, s.fvl),
+                             Fmt("c03 movr16 %u %u %d %d", opcode, B16, sata, fl));
+    }
     void Opcode(u16 opcode, bool full, bool sweep16) {
         DecodeInfo d;
         impl.api->decode(opcode, &d);
+        if (std::strncmp(d.name, "movr", 4) == 0)
+            for (int sata = 0; sata < 2; ++sata)
+                for (int fl = 0; fl < 2; ++fl)
+                    for (u16 B : O16(false))
+                        Movr16Case(opcode, d, B, sata, fl);
         Plan p = MakePlan(opcode, d);
         if (!p.valid)
             return;
@@ -505,6 +548,15 @@ inline int RunReplay(const std::string& r, Result& res) {
     unsigned op, b16;
     unsigned long long A, B;
     int sata, fl;
+    if (std::sscanf(r.c_str(), "c03 movr16 %u %u %d %d", &op, &b16, &sata, &fl) == 4) {
+        Engine e(res);
+        DecodeInfo d;
+        e.impl.api->decode((u16)op, &d);
+        e.Movr16Case((u16)op, d, (u16)b16, sata, fl);
+        for (auto& v : res.violations)
+            quiet.Say(Fmt("  %s\n    %s\n", v.key.c_str(), v.text.c_str()));
+        return res.violations.empty() ? 0 : 1;
+    }
     if (std::sscanf(r.c_str(), "c03 %u %llu %llu %u %d %d", &op, &A, &B, &b16, &sata, &fl) != 6)
         return 2;
     Engine e(res);
@@ -531,7 +583,7 @@ inline void Run(const Args& args, Result& res) {
                     DecodeInfo d;
                     e.impl.api->decode((u16)op, &d);
                     Plan p = MakePlan((u16)op, d);
-                    if (!p.valid)
+                    if (!p.valid && std::strncmp(d.name, "movr", 4) != 0)
                         continue;
                     bool sweep = false;
                     if (th) {
@@ -549,7 +601,7 @@ inline void Run(const Args& args, Result& res) {
             res);
     res.rule = "every encoding (all 65536 first words are decoded; those whose handler is alm/alu/alm_r6 with or,and,xor,add,cmp,sub,addh,addl,"
                "subh,subl,cmpu; add/sub/add_p1/sub_p1/cmp* accumulator forms; three-operand or; moda inc,dec,neg,rnd,copy,clr,clrr,not under every "
-               "condition code; movr 40-bit forms) is executed once per (left operand in A40, right operand in O16 or A40, sata, flag pre-state) on "
+               "condition code; movr 40-bit forms; for the 16-bit movr forms the overflow flags only) is executed once per (left operand in A40, right operand in O16 or A40, sata, flag pre-state) on "
                "the implementation library; result, every other accumulator and the flags z,m,e,n,c,v,vl,lm are compared with exact __int128 "
                "arithmetic; distinct = distinct (opcode, result, flags)";
     res.bound = Fmt("A40: %zu values (all 2^k, 2^k-1 and complements%s), O16: %zu values, sata in {0,1}, flags pre-state in {all 0, all 1}%s",
